@@ -164,8 +164,13 @@ func genGuided(rng *hlib.Rand, d *cdrv.Driver, c *stdCodec, input []byte) []site
 		case cs < 0:
 			inOrder = []string{"dic", "dfc", "df"}
 		case cs&0x10 != 0:
-			inOrder = []string{"tmm", "tmm", "tmm", "rf:0:ffio"}
-			outOrder = []string{"dic", "dfc", "df"}
+			// metadata pending: only tell_me_more is in order; restart_frame is the one out-of-order
+			// call that does not disable the object (it is not a coroutine), so it is tried often
+			inOrder = []string{"tmm", "tmm", "tmm"}
+			outOrder = []string{"rf:0:ffio", "rf:0:13", "rf:1:13", "rf:0:ffio", "dic", "dfc", "df"}
+			if rng.Chance(1, 4) {
+				inOrder = outOrder[:4]
+			}
 		case cs == 0:
 			inOrder = []string{"dic", "dic", "dic", "dic0", "dfc", "df"}
 			outOrder = []string{"tmm", "rf:0:ffio", "rf:1:13"}
@@ -189,13 +194,14 @@ func genGuided(rng *hlib.Rand, d *cdrv.Driver, c *stdCodec, input []byte) []site
 		switch {
 		case strings.HasPrefix(pick, "rf"):
 			call(pick)
-			// a restart is followed by repositioning the source (sometimes to the wrong place: `#bad restart`)
-			if pos := strings.SplitN(pick, ":", 3)[2]; rng.Chance(5, 6) {
+			// an accepted restart is followed by repositioning the source (sometimes to the wrong place or
+			// not at all: `#bad restart`)
+			if pos := strings.SplitN(pick, ":", 3)[2]; cs >= 0x20 && cs&0x10 == 0 && rng.Chance(5, 6) {
 				if n, err := strconv.Atoi(pos); err != nil || n <= len(input) {
 					add("seek:" + pos)
 				}
+				feed()
 			}
-			feed()
 			last = ""
 		case pick == "df":
 			if !havePix && cs >= 0x20 && rng.Chance(5, 6) {
